@@ -78,6 +78,10 @@ def _running(shard, ctx, res, only):
                 except Exception as e:  # noqa: BLE001
                     res.violation({"site": "stats.running_filter", "symptom": f"raised {type(e).__name__}", "window_gt_length": w > n}, case, repr(e))
                     continue
+                if not np.array_equal(x, xf.astype(x.dtype)):
+                    res.violation({"site": "stats.running_filter", "symptom": "the caller's array was modified", "method": method}, case, f"n={n} window={w} dtype={dtype}")
+                    x = xf.astype(x.dtype)
+                    continue
                 if got.shape != (n,):
                     res.violation({"site": "stats.running_filter", "symptom": "output length differs from the input", "window_gt_length": w > n}, case,
                                   f"n={n} window={w}: got {got.shape}")
@@ -137,6 +141,10 @@ def _down1d(shard, ctx, res, only):
                         continue
                     if f > n:
                         res.violation({"site": "stats.downsample_1d", "symptom": "factor larger than the data accepted"}, case, f"n={n} factor={f}")
+                        continue
+                    if not np.array_equal(x, xf.astype(x.dtype)):
+                        res.violation({"site": "stats.downsample_1d", "symptom": "the caller's array was modified", "method": method}, case, f"n={n} factor={f} dtype={dtype}")
+                        x = xf.astype(x.dtype)
                         continue
                     m = n // f
                     grp = xf[: m * f].reshape(m, f)
@@ -227,6 +235,9 @@ def _down2d(shard, ctx, res, only):
                                     res.nontrivial += 1
                         except Exception as e:  # noqa: BLE001
                             res.violation({"site": "stats.downsample_2d_flat", "symptom": f"raised {type(e).__name__}"}, case, repr(e))
+                        if not np.array_equal(A, Af.astype(A.dtype)):
+                            res.violation({"site": "stats.downsample_2d", "symptom": "the caller's array was modified", "method": method}, case, f"shape {(d1, d2)} factors {(f1, f2)}")
+                            A = Af.astype(A.dtype)
 
 
 def _detrend(shard, ctx, res, only):
